@@ -9,7 +9,7 @@ from vlib.core import Failure
 
 PROP = "C03"
 RULE = (
-    "a case is a HISTORY of 2-4 requests (GET / HEAD / POST, unique targets) on one pool (maxsize 1-2, retries False / 1 / 3): "
+    "a case is a HISTORY of 2-4 requests (GET / HEAD / POST / the lower-case token head, unique targets) on one pool (maxsize 1-2, retries False / 1 / 3): "
     "per attempt the server behaviour = status 200 / 201 / 205 / 404 / 500 (with body) / 204 / 304 x framing Content-Length / chunked / close-delimited x "
     "keep-alive / close x network segmentation x part of the response arriving only after the next request was written x {nothing, stray bytes or a complete second response after the body, a body "
     "after a body-less HEAD/204/304 response, an interim 100 Continue, early EOF inside the body}; per response the caller "
@@ -78,7 +78,7 @@ def _validate(case):
     if not isinstance(reqs, list) or not (1 <= len(reqs) <= 5) or not isinstance(svs, list) or len(svs) > 8:
         raise core.InvalidCase
     for r in reqs:
-        if not isinstance(r, dict) or r.get("m") not in ("GET", "HEAD", "POST") or r.get("b") not in BEHAVIOURS:
+        if not isinstance(r, dict) or r.get("m") not in ("GET", "HEAD", "POST", "head") or r.get("b") not in BEHAVIOURS:
             raise core.InvalidCase
     for sv in svs:
         if not isinstance(sv, dict) or sv.get("status", 200) not in BODY_STATUSES + (204, 304) or sv.get("framing", "cl") not in ("cl", "chunked", "close") or sv.get("extra") not in EXTRAS:
@@ -278,7 +278,7 @@ def product_cases(tier):
                 for status in (200, 204, 304, 205, 404):
                     if status in (204, 304) and extra in ("short", "pre100"):
                         continue
-                    for m in ("GET", "HEAD", "POST"):
+                    for m in ("GET", "HEAD", "POST", "head"):  # "head": a method token in lower case is not HEAD (servers send a body)
                         for b in BEHAVIOURS:
                             for seg in (None, 1, 13):
                                 for maxsize, retries in ((1, False), (1, 3), (2, 1)):
@@ -313,7 +313,7 @@ def _hyp():
         "extra": st.sampled_from(EXTRAS + [None, None]), "seg": st.sampled_from([None, None, 1, 2, 7, 13, 100]), "n": st.sampled_from([0, 1, 5, 9, 10, 40, 200, 3000]),
         "cs": st.lists(st.integers(1, 40), max_size=3), "late": st.sampled_from([None, None, None, 0, 5, 9, 12, 100]), "trap": st.booleans(),
     })
-    rq = st.fixed_dictionaries({"m": st.sampled_from(["GET", "GET", "HEAD", "POST"]), "b": st.sampled_from(BEHAVIOURS)})
+    rq = st.fixed_dictionaries({"m": st.sampled_from(["GET", "GET", "HEAD", "POST", "head"]), "b": st.sampled_from(BEHAVIOURS)})
     return st.fixed_dictionaries({
         "kind": st.just("own"), "maxsize": st.sampled_from([1, 1, 2]), "retries": st.sampled_from([False, 1, 3]),
         "requests": st.lists(rq, min_size=2, max_size=4), "server": st.lists(sv, min_size=1, max_size=6),
